@@ -80,13 +80,13 @@ META = {
              trusted=['sequence theory of pv/vc/arrays.py (quantified facts instantiated by E-matching; lemmas: product over concatenation, equal sequences have equal products/members)', 'numpy.histogramdd and pandas column selection (bounded tier)'],
              assumptions=['Domain.sort is not under contract (sorted is an extern)']),
  'C16': dict(technique=DED + ' for the normalisation clause (every stored table sums to the total, for arbitrary clique sets); exactness on acyclic structures by bounded run-time contract',
-             ded='generalized_belief_propagation, FactorGraph.clique_marginals, FactorGraph.project: every table stored in the returned dict / returned sums to self.total (L-norm).',
+             ded='generalized_belief_propagation, FactorGraph.clique_marginals, FactorGraph.project: every table stored in the returned dict / returned sums to self.total (L-norm). RegionGraph.__init__: the convex flag binds belief_propagation to hazan_peng_shashua, otherwise to generalized_belief_propagation; total / iters / damping stored as given; build_graph leaves these attributes alone (frame obligation).',
              trusted=['exp/log identities over the reals'], assumptions=['finiteness and fixed-point convergence are outside deductive reach']),
  'C17': dict(technique=DED + ' for normalisation of the returned beliefs; optimality by bounded KKT certificate',
-             ded='hazan_peng_shashua: every belief stored in mu sums to self.total. The stationarity pattern of the belief update is not expressible (comprehension sums are not deterministic terms in the encoding): decided by the bounded KKT certificate.',
+             ded='hazan_peng_shashua: every belief stored in mu sums to self.total; RegionGraph.__init__ dispatches to it exactly under convex=True. The stationarity pattern of the belief update is not expressible (comprehension sums are not deterministic terms in the encoding): decided by the bounded KKT certificate.',
              trusted=['exp/log identities over the reals', 'L-kkt (bounded tier)']),
  'C18': dict(technique=DED + ': oracle interface obligations (every attribute LocalInference uses on its oracle is defined by RegionGraph and FactorGraph) + normalisation idiom + one-cell instance of LocalInference._marginal_loss (gradient term = derivative of loss term); fit and exactness by bounded run-time contract',
-             ded='interface: belief_propagation, cliques, damping, domain, messages, potentials, primal_feasibility are assigned on every path of __init__ (following build_graph etc.) or are methods, for both oracle classes; returned tables sum to the total. LocalInference._marginal_loss in the one-cell instance: see C04 (same contract on the copy), replayed natively when refuted.',
+             ded='interface: belief_propagation, cliques, damping, domain, messages, potentials, primal_feasibility are assigned on every path of __init__ (following build_graph etc.) or are methods, for both oracle classes; returned tables sum to the total. LocalInference._setup builds the oracle class and convexity its marginal_oracle name stands for (over its own domain, inner_iters sweeps); primal_feasibility measures the mean L1 disagreement per parent/child edge. LocalInference._marginal_loss in the one-cell instance: see C04 (same contract on the copy), replayed natively when refuted.',
              trusted=['definite-assignment analysis of __init__ (pv/vc/iface.py)']),
  'C19': dict(technique=DED + ': loop invariant on the exp-sum of the log-weights in entropic_mirror_descent; site contracts of estimate_total (the total the weights must sum to) and of Dataset.project (marginals laid out in the attribute order of the measurement); never-worse-than-uniform by bounded run-time contract',
              ded='entropic_mirror_descent returns weights summing to total, or to total*(1 + n*tiny/sum(x0)) if no step was ever accepted. estimate_total (public_inference.py copy): formula of the inverse-variance estimate as in C09. Dataset.project: requested column order reaches frame and domain unchanged. '
